@@ -21,6 +21,7 @@ from harness import common  # noqa: E402
 
 PROPS = {
     "C08": "harness.corr_filter",
+    "C10": "harness.corr_layers",
 }
 
 TRUSTED_BASE = [
